@@ -3,6 +3,7 @@ package vuego
 import (
 	"fmt"
 	"reflect"
+	"sort"
 	"strconv"
 	"strings"
 	"sync"
@@ -324,6 +325,8 @@ func (s *Stack) ForEach(expr string, fn func(index int, value any) error) error 
 		return nil
 	case reflect.Map:
 		keys := rv.MapKeys()
+		// Go randomises map iteration: sort the keys so that the same data renders the same bytes
+		sort.Slice(keys, func(i, j int) bool { return fmt.Sprint(keys[i]) < fmt.Sprint(keys[j]) })
 		for i, key := range keys {
 			if err := fn(i, rv.MapIndex(key).Interface()); err != nil {
 				return err
